@@ -213,11 +213,14 @@ register("C17", "exploration",
          SEQ_RULE + "; rejected calls are drawn from a grammar of invalid values for every parameter of every public "
          "method (one bad parameter and pairs) and inserted into histories; each is executed between two full "
          "directory snapshots (paths, content hashes, directories) and must raise a documented class; read-only "
-         "calls (retrieve_object / retrieve_metadata / get_hex_digest) likewise between snapshots; focus = a rejected call",
+         "calls (retrieve_object / retrieve_metadata / get_hex_digest) likewise between snapshots; focus = a rejected call. "
+         "SEQ-I part: the read-only look-ups made after every step of an interrupted history (states with half-done "
+         "reference files, markers, left-over objects) must not write to the store when they succeed",
          COMMON_ASSUME + ["values whose treatment is not documented (format id '', inner spaces in format ids) are not generated",
                           "for a pair of bad parameters either member's documented class is accepted"],
          30, 420,
-         [SeqPart("C17", focus=["rejected-call"], hooks=_c17_hooks, ro_snapshot=True)])
+         [SeqPart("C17", focus=["rejected-call"], hooks=_c17_hooks, ro_snapshot=True),
+          SeqIPart("C17", weight=0.5)])
 
 register("C14", "exploration",
          SEQ_RULE + "; histories contain reopen(cfg') operations: (creation cfg, history, reopening cfg) triples over "
